@@ -28,6 +28,7 @@ pub fn prop() -> HistProp {
         thorough: 30000,
         mk: |_, _, _| Box::new(C04 { nontrivial: false }),
         extra: None,
+        many_batches: 0,
     }
 }
 
